@@ -609,9 +609,11 @@ impl Gate {
                             cmd
                         );
                     }
-                    sender.send(cmd.clone()).await.expect(
-                        "Internal error: failed to notify cloned gate",
-                    );
+                    if sender.send(cmd.clone()).await.is_err() {
+                        // The clone was dropped while we waited for room
+                        // in its command queue: same as a closed sender.
+                        closed_sender_found = true;
+                    }
                 } else {
                     if log_enabled!(Level::Trace) {
                         let clone_txt = if self.is_clone() {
